@@ -186,6 +186,29 @@ func c01One(c *vk.Ctx, prop string, e reg.Entry, idx []int, id string) uint64 {
 				return
 			}
 			th = vk.Hash(th, fmt.Sprint(db.Rows, db.Columns))
+			// (a') the same contents as the reference server writes them (for LowCardinality also
+			// with keys wider than the library would choose) must decode to the same values
+			if !noRef(e.Label) && len(idx) > 0 {
+				for _, kw := range []int{-1, 1, 3} {
+					if kw >= 0 && !strings.Contains(e.Label, "LowCardinality") {
+						continue
+					}
+					refcol.LCKeyWidth = kw
+					var rw refwire.W
+					refcol.EncodeBlockBody(&rw, rev, refwire.BlockInfo{BucketNum: -1}, len(want), []refcol.BlockCol{{Name: "col", Type: col.T, Vals: want}})
+					refcol.LCKeyWidth = -1
+					f2, _ := reg.Wrap(e.New(), e.Label)
+					var b2 proto.Block
+					if err := b2.DecodeBlock(proto.NewReader(bytes.NewReader(rw.B)), rev, proto.Results{{Name: "col", Data: f2.C}}); err != nil {
+						fail("reference-block-rejected", fmt.Sprintf("rev %d keywidth %d: %v; bytes %s", rev, kw, err, vk.Hex(rw.B)))
+						return
+					}
+					if got := rowsCanon(f2); !refcol.Equal(anyList(got), anyList(want)) {
+						fail("reference-block-decodes-wrong", fmt.Sprintf("rev %d keywidth %d: decoded %s, block holds %s", rev, kw, refcol.Show(anyList(got)), refcol.Show(anyList(want))))
+						return
+					}
+				}
+			}
 			// (b) through automatic inference where the type is inferable
 			probe := new(proto.ColAuto)
 			if ierr := probe.Infer(col.C.Type()); ierr == nil {
@@ -246,7 +269,7 @@ func rowsCanonAs(inferred, typed *reg.Col) (out []any) {
 
 // C01 — block encode -> decode is the identity for every column type and nesting.
 func C01(c *vk.Ctx) {
-	c.Rule("every column composition of the generated registry (45 base columns; Array / Nullable / LowCardinality / Map(String,.) / Map(.,String) / Tuple(.,String) wrappers wherever the exported generic constructors type-check, to depth 2) x every value sequence of length <= L (quick 2, thorough 3) over the per-type boundary alphabet (0, +-1, min, max, NaN/Inf/-0/denormal, strings of 0/1/127/128 bytes, nulls, empty and nested arrays, range ends of the date types) x revisions {54460, 54453, 51902} x output buffer {empty, 1 byte, 9 bytes pre-filled}; plus size-triggered cases (LowCardinality dictionaries of 254..257 and 65534..65537 distinct values, strings of 16383/16384 bytes). Oracles: typed decode into a fresh column, decode through Results.Auto where ColAuto.Infer accepts the type, independent reference decode (refcol) with exact consumption, buffer independence, re-encode equality, WriteBlock+Flush = EncodeBlock; the same run in the purego build must produce the same transcript. distinct_nontrivial = (composition, value sequence) cases with at least one row.")
+	c.Rule("every column composition of the generated registry (45 base columns; Array / Nullable / LowCardinality / Map(String,.) / Map(.,String) / Tuple(.,String) wrappers wherever the exported generic constructors type-check, to depth 2) x every value sequence of length <= L (quick 2, thorough 3) over the per-type boundary alphabet (0, +-1, min, max, NaN/Inf/-0/denormal, strings of 0/1/127/128 bytes, nulls, empty and nested arrays, range ends of the date types) x revisions {54460, 54453, 51902} x output buffer {empty, 1 byte, 9 bytes pre-filled}; plus size-triggered cases (LowCardinality dictionaries of 254..257 and 65534..65537 distinct values, strings of 16383/16384 bytes). Oracles: typed decode into a fresh column, typed decode of the same contents as the reference server writes them (LowCardinality keys of 8, 16 and 64 bits), decode through Results.Auto where ColAuto.Infer accepts the type, independent reference decode (refcol) with exact consumption, buffer independence, re-encode equality, WriteBlock+Flush = EncodeBlock; the same run in the purego build must produce the same transcript. distinct_nontrivial = (composition, value sequence) cases with at least one row.")
 	L := 2
 	if !c.Quick() {
 		L = 3
